@@ -268,6 +268,22 @@ type Proposal struct {
 // Propose runs controller.ProduceProposal (never call on a node whose Syncing() flag is set:
 // CommitCertificate does not refresh the mempool FSM while syncing).
 func (n *Node) Propose(evidence ...*bft.DoubleSignEvidence) (*Proposal, lib.ErrorI) {
+	return n.ProposeVDF(nil, evidence...)
+}
+
+// GoodVDF computes a (tiny) valid verifiable-delay proof over the hash of the node's last certified block, the
+// seed controller.ProduceProposal / ApplyAndValidateBlock verify it against.
+func (n *Node) GoodVDF(iterations int) (*crypto.VDF, lib.ErrorI) {
+	last, e := n.Ctrl.FSM.LoadCertificateHashesOnly(n.Ctrl.FSM.Height() - 1)
+	if e != nil {
+		return nil, e
+	}
+	out, proof := crypto.GenerateVDF(last.BlockHash, iterations, nil)
+	return &crypto.VDF{Proof: proof, Output: out, Iterations: uint64(iterations)}, nil
+}
+
+// ProposeVDF is Propose with the VDF the bft module would hand to the leader (nil = none).
+func (n *Node) ProposeVDF(vdf *crypto.VDF, evidence ...*bft.DoubleSignEvidence) (*Proposal, lib.ErrorI) {
 	n.Enter()
 	if n.Ctrl.Syncing().Load() {
 		return nil, lib.NewError(lib.CodeInvalidArgument, lib.ConsensusModule, "harness: Propose on a syncing node")
@@ -276,7 +292,7 @@ func (n *Node) Propose(evidence ...*bft.DoubleSignEvidence) (*Proposal, lib.Erro
 		return nil, e
 	}
 	be := &bft.ByzantineEvidence{DSE: bft.NewDSE(evidence)}
-	rc, blkBz, res, e := n.Ctrl.ProduceProposal(be, nil)
+	rc, blkBz, res, e := n.Ctrl.ProduceProposal(be, vdf)
 	if e != nil {
 		return nil, e
 	}
